@@ -121,6 +121,7 @@ type Explorer struct {
 	prefix  []event
 	lastTr  []event
 	start   time.Time
+	lastCharge time.Time
 	Verbose bool
 
 	Preempt    int // CONC: bound on preemptive context switches per path
@@ -191,6 +192,7 @@ func (ex *Explorer) runSubtree(start []event, pool *Pool) {
 	ex.Res.Exhausted = false
 	for {
 		if pool != nil {
+			pool.charge(ex)
 			if why := pool.overBudget(); why != "" {
 				ex.inconclusive(why)
 				return
